@@ -15,7 +15,7 @@ use scylla::cluster::metadata::Strategy;
 use scylla::verif_hooks::cluster::{
     KeyspaceSpec, NodeSpec, cluster_from_topology, cluster_refresh, cluster_refresh_accepting, cluster_refresh_topology,
     cluster_refresh_topology_accepting, cluster_refresh_topology_filtered, cluster_state_filtered, cluster_state_general,
-    set_sharders,
+    ADDRESS_INDEX_OVERRIDE, node_has_pool, set_sharders,
 };
 use std::collections::HashMap;
 use uuid::Uuid;
@@ -178,6 +178,28 @@ thread_local! {
         tokio::runtime::Builder::new_current_thread().enable_all().build().unwrap();
 }
 
+/// Address group of a peer: flag `g<k>` (one digit).  Peers of one group share ONE address (nodes behind a NAT /
+/// proxy address, told apart by host id only); the others have the address of their position in the list.
+pub fn addr_group(p: &PeerSpec) -> Option<u16> {
+    let i = p.flags.find('g')?;
+    p.flags[i + 1..].chars().next()?.to_digit(10).map(|d| 200 + d as u16)
+}
+
+/// While alive, the hooks derive the addresses of the grouped peers from their group (process-wide static).
+pub struct AddrGuard;
+impl AddrGuard {
+    pub fn new(peers: &[PeerSpec]) -> AddrGuard {
+        let m: HashMap<Uuid, u16> = peers.iter().filter_map(|p| addr_group(p).map(|g| (host_id(p.id), g))).collect();
+        *ADDRESS_INDEX_OVERRIDE.lock().unwrap() = if m.is_empty() { None } else { Some(m) };
+        AddrGuard
+    }
+}
+impl Drop for AddrGuard {
+    fn drop(&mut self) {
+        *ADDRESS_INDEX_OVERRIDE.lock().unwrap() = None;
+    }
+}
+
 fn node_specs(peers: &[PeerSpec]) -> Vec<NodeSpec> {
     peers
         .iter()
@@ -203,16 +225,19 @@ fn keyspace_specs(keyspaces: &[Strat]) -> Vec<KeyspaceSpec> {
 /// Flags word: contains 'd' = disabled by the host filter, 'x' = not connected (C05); default enabled+connected.
 /// A node's address is derived from its position in `peers`.
 pub fn build_cluster(peers: &[PeerSpec], keyspaces: &[Strat]) -> ClusterState {
+    let _addr = AddrGuard::new(peers);
     RT.with(|rt| rt.block_on(cluster_from_topology(&node_specs(peers), &keyspace_specs(keyspaces))))
 }
 
 /// A full metadata refresh of `previous` (`ClusterState::new_updated`): new peers and new keyspaces.
 pub fn refresh_cluster(previous: &ClusterState, peers: &[PeerSpec], keyspaces: &[Strat]) -> ClusterState {
+    let _addr = AddrGuard::new(peers);
     RT.with(|rt| rt.block_on(cluster_refresh(previous, &node_specs(peers), &keyspace_specs(keyspaces), &HashMap::new())))
 }
 
 /// A topology-only refresh of `previous` (`ClusterState::new_with_updated_topology`): keyspaces are kept.
 pub fn refresh_cluster_topology(previous: &ClusterState, peers: &[PeerSpec]) -> ClusterState {
+    let _addr = AddrGuard::new(peers);
     RT.with(|rt| rt.block_on(cluster_refresh_topology(previous, &node_specs(peers))))
 }
 
@@ -241,6 +266,7 @@ pub fn build_state_general(
     fetched: &[Option<Strat>],
     accepting: bool,
 ) -> ClusterState {
+    let _addr = AddrGuard::new(peers);
     let ks: Vec<KeyspaceSpec> = fetched
         .iter()
         .enumerate()
@@ -271,6 +297,7 @@ fn accepted_ids(peers: &[PeerSpec]) -> Vec<Uuid> {
 /// As `build_state_general` with a per-peer host-filter verdict (flag `a` = accepted) and WITHOUT clearing the
 /// enabled-ness of the previous nodes: an old node is enabled iff its last spec said so (flag `d` = disabled).
 pub fn build_state_filtered(previous: Option<(&ClusterState, &[PeerSpec])>, peers: &[PeerSpec], fetched: &[Option<Strat>]) -> ClusterState {
+    let _addr = AddrGuard::new(peers);
     let ks: Vec<KeyspaceSpec> = fetched
         .iter()
         .enumerate()
@@ -295,6 +322,7 @@ pub fn build_state_filtered(previous: Option<(&ClusterState, &[PeerSpec])>, peer
 
 /// Topology-only refresh with the per-peer filter (see `build_state_filtered`).
 pub fn refresh_topology_filtered(previous: &ClusterState, prev_peers: &[PeerSpec], peers: &[PeerSpec]) -> ClusterState {
+    let _addr = AddrGuard::new(peers);
     reimpose(previous, prev_peers);
     RT.with(|rt| rt.block_on(cluster_refresh_topology_filtered(previous, &node_specs(peers), &accepted_ids(peers))))
 }
@@ -322,6 +350,7 @@ pub fn refresh_cluster_accepting(
     peers: &[PeerSpec],
     keyspaces: &[Strat],
 ) -> ClusterState {
+    let _addr = AddrGuard::new(peers);
     reimpose(previous, prev_peers);
     RT.with(|rt| {
         rt.block_on(cluster_refresh_accepting(previous, &node_specs(peers), &keyspace_specs(keyspaces), &HashMap::new()))
@@ -330,6 +359,7 @@ pub fn refresh_cluster_accepting(
 
 /// As `refresh_cluster_topology`, accepting every peer.
 pub fn refresh_cluster_topology_accepting(previous: &ClusterState, prev_peers: &[PeerSpec], peers: &[PeerSpec]) -> ClusterState {
+    let _addr = AddrGuard::new(peers);
     reimpose(previous, prev_peers);
     RT.with(|rt| rt.block_on(cluster_refresh_topology_accepting(previous, &node_specs(peers))))
 }
@@ -362,6 +392,28 @@ pub fn reuse_arms(previous: Option<&ClusterState>, state: &ClusterState, peers: 
             }
         })
         .collect()
+}
+
+/// Per peer, whether its node object in `state` really has a connection pool (`pool.is_some()`, not the
+/// verification override behind `is_enabled()`): `1` / `0`, `?` = unknown host.
+pub fn pool_presence(state: &ClusterState, peers: &[PeerSpec]) -> String {
+    if peers.is_empty() {
+        return "-".into();
+    }
+    peers
+        .iter()
+        .map(|p| match node_has_pool(state, host_id(p.id)) {
+            Some(true) => '1',
+            Some(false) => '0',
+            None => '?',
+        })
+        .collect()
+}
+
+/// Does every node of `state` report the enabled-ness `enabled_of(host)` that equals its real pool presence?  (In
+/// production `is_enabled()` is `pool.is_some()`; hook-built states override it.)
+pub fn enabledness_is_real(state: &ClusterState, enabled_of: &dyn Fn(u64) -> bool) -> bool {
+    state.get_nodes_info().iter().all(|n| Some(enabled_of(node_id(n.host_id))) == node_has_pool(state, n.host_id))
 }
 
 /// Shape of a generated topology.
